@@ -508,3 +508,33 @@ PROPS["C18"] = {
     "level_text": "Bounded symbolic model checking of the DP solvers against brute-force enumeration of all 2^n selections written as branch-free terms: weights, values and limits are symbolic, so ties, items heavier than the limit and boundary totals are decided by the solver. For the clique enumeration nothing scalar remains symbolic after the edge choices: that part is an exhaustive enumeration of small graphs carried out by the engine's forking, and is labelled so.",
     "level_note": "Trusted: go/ssa, gosym (witness-validated; Go map iteration order is modelled as forward/reversed/rotations of insertion order), z3.",
 }
+
+# ------------------------------------------------------------------------------------------- C08
+c08 = "vh/c08."
+PROPS["C08"] = {
+    "patterns": ["./c08"],
+    "level": "model_checking",
+    "quick": (
+        [J(c08 + "Pad", n=n, maxb=20) for n in (0, 1, 2, 3)]
+        + [J(c08 + "Pad", n=17, maxb=17)]
+        + [J(c08 + "UnpadArb", n=n, maxb=6) for n in (0, 1, 2, 4, 6)]
+        + [J(c08 + "CBC", n=n, covers=["dst shares memory with plaintext", "dst shares memory with ciphertext"]) for n in (0, 1, 15, 16, 17, 33)]
+        + [J(c08 + "CBCArb", n=n) for n in (0, 1, 15, 17)]
+        + [J(c08 + "CBCArb", n=n, covers=["arbitrary ciphertext accepted", "arbitrary ciphertext rejected"]) for n in (16, 32)]
+        + [J(c08 + "GCM", n=n, naad=a) for (n, a) in ((0, 0), (1, 2), (3, 1), (17, 0))]
+    ),
+    "thorough": (
+        [J(c08 + "Pad", n=n, maxb=64) for n in (0, 1, 2, 3, 5)]
+        + [J(c08 + "Pad", n=n, maxb=40) for n in (17, 40)]
+        + [J(c08 + "UnpadArb", n=n, maxb=9) for n in (0, 1, 2, 4, 6, 8, 9)]
+        + [J(c08 + "CBC", n=n) for n in range(0, 35)]
+        + [J(c08 + "CBCArb", n=n) for n in (0, 1, 15, 16, 17, 32, 48)]
+        + [J(c08 + "GCM", n=n, naad=a) for n in (0, 1, 3, 16, 17, 33) for a in (0, 1, 3)]
+    ),
+    "bounds": {"quick": "PKCS#7/PKCS#5: data of 0..3 and 17 symbolic bytes, block size symbolic (every value <= 0 in one path, 1..20 concretised); un-padding of arbitrary byte strings of length 0..6 with block sizes <= 6; CBC: keys of 16/24/32 and invalid 15/0/33 bytes, symbolic key, IV and plaintext of length 0, 1, 15, 16, 17, 33, dst separate or sharing memory with the source; arbitrary ciphertext of 0, 1, 15, 16, 17, 32 bytes; GCM: plaintext 0..17 bytes, aad 0..2 bytes, every single-byte change of ciphertext/tag, nonce or aad",
+               "thorough": "plaintext lengths 0..34, block sizes up to 64, more GCM sizes"},
+    "outside": ["AES, GHASH and the GCM tag themselves (uninterpreted functions: AES is an arbitrary keyed permutation with D_k(E_k(x)) = x, Seal an arbitrary function of its four inputs; authenticity of GCM is assumed, the wrappers' plumbing is checked)", "len(dst) larger than documented", "block sizes above the bound"],
+    "assumptions": ["AES-128/192/256 block encryption is an arbitrary permutation per key (uninterpreted E/D, inverse simplified syntactically)", "GCM Open succeeds exactly on the output of a Seal with the same key, nonce and additional data (authenticity)", "the generic crypto/cipher CBC mode (executed from its own SSA) is what runs on top of the block cipher"],
+    "level_text": "Bounded symbolic model checking of the real cryptz helpers with the real crypto/cipher CBC code on top of an uninterpreted block cipher: keys, IVs, nonces, plaintexts and arbitrary ciphertexts are symbolic bytes; padding, length helpers, CBC chaining (against an independent reference over the same E_k), aliasing layouts, error paths and the exact arguments reaching GCM Seal/Open are decided by the solver.",
+    "level_note": "Trusted: go/ssa, gosym, z3, and the stated cryptographic assumptions (AES/GCM are not themselves verified).",
+}
